@@ -66,6 +66,9 @@ def strategy_(draw, thorough):
     vfr = {"n": 0, "cols": [c for c in fr0["cols"] if c["name"] not in pn], "index": None}
     nf = draw(frames.compatible_frame(vfr, rows=[2, 3, 4, 6, 9], same_categories=True))
     nf["n"] = max(nf["n"], 2)
+    if draw(st.integers(0, 3)) == 0:
+        # enough new data to be longer than the footer it overwrites
+        nf["n"] = draw(st.sampled_from([600, 2000, 5000]))
     if kind == "null_in_required":
         for c in nf["cols"]:
             c["null"] = {"pat": "none", "mask": []}
